@@ -10,6 +10,7 @@ import (
 	"net/http"
 	"net/http/httptest"
 	"net/url"
+	"strings"
 	"sync/atomic"
 	"syscall"
 	"testing"
@@ -244,6 +245,21 @@ func TestC19ResponseHeaderTimeout(t *testing.T) {
 			cfg.Proxy.DialTimeout = time.Second
 		}
 		kind := rapid.SampledFrom([]string{"default", "skip-verify"}).Draw(t, "kind")
+		// the kind of request must not matter (event streams take their own branch in the handler)
+		accept := rapid.SampledFrom([]string{"", "text/event-stream", "*/*", "text/html"}).Draw(t, "accept")
+		method := rapid.SampledFrom([]string{"GET", "GET", "POST", "HEAD"}).Draw(t, "method")
+		newReq := func() *http.Request {
+			var body io.Reader
+			if method == "POST" {
+				body = strings.NewReader("payload")
+			}
+			req := httptest.NewRequest(method, "http://example.com/", body)
+			req.RemoteAddr = "192.0.2.1:1234"
+			if accept != "" {
+				req.Header.Set("Accept", accept)
+			}
+			return req
+		}
 		run := func(T time.Duration) (int, string, time.Duration) {
 			cfg.Proxy.ResponseHeaderTimeout = T
 			transport.SetConfig(cfg)
@@ -255,8 +271,7 @@ func TestC19ResponseHeaderTimeout(t *testing.T) {
 			}
 			atomic.StoreInt64(&delay, int64(D))
 			rec := httptest.NewRecorder()
-			req := httptest.NewRequest("GET", "http://example.com/", nil)
-			req.RemoteAddr = "192.0.2.1:1234"
+			req := newReq()
 			start := time.Now()
 			p.ServeHTTP(rec, req)
 			return rec.Code, rec.Body.String(), time.Since(start)
@@ -282,8 +297,7 @@ func TestC19ResponseHeaderTimeout(t *testing.T) {
 			for i := 0; i < K; i++ {
 				go func() {
 					rec := httptest.NewRecorder()
-					req := httptest.NewRequest("GET", "http://example.com/", nil)
-					req.RemoteAddr = "192.0.2.1:1234"
+					req := newReq()
 					t0 := time.Now()
 					p.ServeHTTP(rec, req)
 					res <- r{rec.Code, time.Since(t0)}
@@ -300,7 +314,7 @@ func TestC19ResponseHeaderTimeout(t *testing.T) {
 		}
 		code, body, took := run(T)
 		hx.Eval()
-		ctx := fmt.Sprintf("responseheadertimeout=%v upstream delay=%v transport=%s (%s)", T, D, kind, describe(cfg))
+		ctx := fmt.Sprintf("responseheadertimeout=%v upstream delay=%v transport=%s request=%s Accept=%q (%s)", T, D, kind, method, accept, describe(cfg))
 		if slow {
 			if code != 504 {
 				t.Fatalf("upstream answers after %v but the client got %d after %v, want 504\n%s", D, code, took, ctx)
@@ -309,11 +323,17 @@ func TestC19ResponseHeaderTimeout(t *testing.T) {
 				t.Fatalf("504 after %v, configured response-header timeout %v\n%s", took, T, ctx)
 			}
 			hx.Class("slow-upstream:504")
+			if accept == "text/event-stream" {
+				hx.Class("slow-upstream:504:event-stream-request")
+			}
 		} else {
 			// a loaded machine can make a prompt upstream look slow: retry with doubled limits before reporting
 			for i := 0; i < 2 && code == 504; i++ {
 				T *= 2
 				code, body, took = run(T)
+			}
+			if method == "HEAD" {
+				body = "upstream-body" // no body on HEAD
 			}
 			if code != 200 || body != "upstream-body" {
 				t.Fatalf("prompt upstream not served normally: %d %q after %v\n%s", code, body, took, ctx)
